@@ -725,6 +725,11 @@ Hnextread(int32 access_id, uint16 tag, uint16 ref, int origin)
             default: /* do nothing for other cases currently */
                 break;
         } /* end switch */
+
+        /* the special-element state has been released: if no further element is found below,
+           Hendaccess must not call into it again */
+        access_rec->special      = 0;
+        access_rec->special_func = NULL;
     }
 
     if (origin == DF_START) { /* set up variables to start searching from beginning of file */
